@@ -276,7 +276,10 @@ class RepeatedNodeWrapper(MutableSequence[_M]):
         return RepeatedNodeWrapper(repeated, self._field)
 
     def drop_many(self, indexes: Iterable[int]) -> None:
-        indexes = sorted(indexes, reverse=True)
+        # Refuse an index that does not exist before anything is modified; negative indexes count from
+        # the end and an index given twice is dropped once, as in `del items[i]`.
+        positions = range(len(self._repeated.items))
+        indexes = sorted({positions[i] for i in indexes}, reverse=True)
         count = itertools.count()
         ranges = (
             list(r) for _, r in itertools.groupby(indexes, key=lambda i: i + next(count))
